@@ -942,7 +942,28 @@ func C20(c *core.Ctx) {
 		}
 		o := explore.HistOpts{Name: "dispatch-qos2-identifiers", NOps: len(q2ops) - 2, OpName: func(i int) string { return q2ops[i+2].String() }, MaxDepth: qd, Dedup: false,
 			Shard: c.Shard, NShards: c.NShards, Deadline: c.Deadline,
-			Run: func(h []int) (string, string, int) { return runDispatch(q2ops, full(h), false) }}
+			Run: func(h []int) (string, string, int) {
+				// the oracle tells deliveries apart by their payload: a history in which one PUBLISH
+				// operation opens two exchanges (it occurs again after the PUBREL of its identifier)
+				// delivers one payload twice, rightly - such histories are left out
+				for i, k := range h {
+					op := q2ops[k+2]
+					if op.kind != "srv:pub" {
+						continue
+					}
+					released := false
+					for _, k2 := range h[i+1:] {
+						o2 := q2ops[k2+2]
+						if o2.kind == "srv:pubrel" && o2.id == op.id {
+							released = true
+						}
+						if k2 == k && released {
+							return "", "", 0
+						}
+					}
+				}
+				return runDispatch(q2ops, full(h), false)
+			}}
 		st := explore.Hist(o)
 		r := c.Rep
 		r.Scenarios++
